@@ -55,9 +55,14 @@ def gen_case(rng, big=False):
             k = rng.randint(1, len(base))
             times = base[:k]
         markets.append({"kind": kind, "times": times, "open": rng.random() < 0.4})
-    if istr == "1min" and rng.random() < 0.35:       # a real UniLpMarket in the mix (its frame must have a row for every bar)
-        markets.append({"kind": "uni", "times": list(base), "open": rng.random() < 0.3})
-        nm += 1
+    if istr == "1min" and rng.random() < 0.35:       # a real UniLpMarket in the mix
+        cand = markets + [{"kind": "uni", "times": list(base), "open": rng.random() < 0.3}]
+        longest = max(cand, key=lambda m: len(m["times"]))
+        # UniLpMarket.set_market_status raises KeyError on a bar without a row (only Deribit tolerates that): keep it only if its
+        # frame has a row for every bar of the run
+        if set(longest["times"]) <= set(base):
+            markets = cand
+            nm += 1
     lo = min(m["times"][0] for m in markets)
     hi = max(m["times"][-1] for m in markets)
     r = rng.random()
